@@ -29,7 +29,8 @@ Definition resolve (kind : option str) (fname : str) (is_stream_with_name : bool
 Definition dec_digit (d : Z) : Z := 48 + d.
 Fixpoint dec_aux (fuel : nat) (n : Z) (acc : str) : str :=
   match fuel with O => acc | S f => if n <? 10 then dec_digit n :: acc else dec_aux f (n / 10) (dec_digit (n mod 10) :: acc) end.
-Definition dec (n : Z) : str := dec_aux 20 n [].
+(* one step per decimal digit: a non-negative n has at most log2 n + 1 of them (no fixed bound on the number of symbols) *)
+Definition dec (n : Z) : str := dec_aux (S (Z.to_nat (Z.log2 n))) n [].
 Definition dec02 (n : Z) : str := if n <? 10 then 48 :: dec n else dec n.
 (* QRCodeSequence.save: file name of symbol n (1-based) of m *)
 Definition sequence_filename (out : str) (m n : Z) : str :=
@@ -51,7 +52,11 @@ Definition r_True : str := [84; 114; 117; 101].
 Definition r_transparent : str := [39;116;114;97;110;115;112;97;114;101;110;116;39].
 Definition r_trans : str := [39;116;114;97;110;115;39].
 Definition r_empty : str := [39; 39].
-Definition falsy (v : str) : bool := str_eqb v r_None || str_eqb v r_False || str_eqb v r_empty || str_eqb v [48].
+(* Python truthiness of a value given by its repr, for the values argparse can deliver (None, bool, int, float, str, list) and the
+   other empty containers: None False 0 0.0 -0.0 '' [] () {} set() b'' are false, everything else is true *)
+Definition falsy_reprs : list str :=
+  [r_None; r_False; [48]; [48; 46; 48]; [45; 48; 46; 48]; r_empty; [91; 93]; [40; 41]; [123; 125]; [115; 101; 116; 40; 41]; [98; 39; 39]].
+Definition falsy (v : str) : bool := mem_str v falsy_reprs.
 
 Definition color_keys : list str :=
   map mkstr [[100;97;114;107]; [108;105;103;104;116]; [102;105;110;100;101;114;95;100;97;114;107]; [102;105;110;100;101;114;95;108;105;103;104;116];
